@@ -1399,8 +1399,10 @@ class SliceSubsetState(SubsetState):
                 # Reorder slices
                 slices = [self.slices[idx] for idx in order]
 
+        # Note that for views that contain arrays, the arrays don't have to come
+        # first, e.g. IndexedData combines them with its integer indices.
         if (isinstance(view, np.ndarray) or
-                (isinstance(view, (tuple, list)) and isinstance(view[0], np.ndarray))):
+                (isinstance(view, (tuple, list)) and any(isinstance(v, np.ndarray) for v in view))):
             mask = np.zeros(data.shape, dtype=bool)
             mask[tuple(slices)] = True
             return mask[view]
